@@ -63,6 +63,11 @@ pub fn single_path_ops(p: &str, rich: bool) -> Vec<Op> {
             Op::WriteAll(s(), vec![]),
             Op::AppendLine(s(), "".into()),
             Op::WriteLines(s(), vec![]),
+            // a write handle that is opened and dropped untouched (truncation is the open's doing, not a write's),
+            // and one that only ever sees an empty write before its flush
+            Op::WriteH(s(), vec![], vec![]),
+            Op::WriteH(s(), vec![vec![]], vec![true]),
+            Op::AppendH(s(), vec![], vec![]),
         ]);
     }
     v
